@@ -36,6 +36,8 @@ open ShuttleProofs
 #print axioms C13.continue_after_iter
 #print axioms C13.bound_outcomes
 #print axioms C13.bound_hit_ends
+#print axioms C13.schedule_below_bound
+#print axioms C13.below_bound_unaffected
 #print axioms C13.steps_total_bound_partial
 #print axioms C13.steps_overshoot_witness
 #print axioms C13.terminates_under_bound
